@@ -369,8 +369,9 @@ def codeBit : K → K
 /-- bytes consumed when the attribute is not skipped: unknown attributes are read by their declared length -/
 def codeUsed (a : Attr) : Nat := if codeBit a.k = .other then a.len else a.used
 
-/-- what a parsed code attribute does: stack map frames, line numbers and local variables are kept for later (a second
-stack map fails: `insert_if_empty`), type annotations and unknown attributes are delivered at once -/
+/-- what a parsed code attribute does: stack map frames (`StackMapTable`, or the old `StackMap` format whose entries
+the reader orders by bytecode offset — 69346bc), line numbers and local variables are kept for later (a second stack map
+fails: `insert_if_empty`), type annotations and unknown attributes are delivered at once -/
 def accAdd (i : Nat) (a : Attr) (acc : KAcc) : R KAcc :=
   match a.k with
   | .stackMapTable | .stackMap =>
